@@ -435,6 +435,9 @@ impl WorkerCtx {
         f: impl FnOnce(&mut CaseRec) -> Result<(), String>,
     ) -> bool {
         let mut rec = CaseRec::default();
+        if self.announce_path.is_some() {
+            self.announce(&json!({"variant": variant, "case": serde_json::to_value(case).unwrap()}));
+        }
         let r = guarded(|| f(&mut rec));
         match r {
             Ok(()) => {
@@ -442,6 +445,14 @@ impl WorkerCtx {
                 true
             }
             Err(fail) => {
+                if fail.message.starts_with("[timeout]") {
+                    // a wall-clock limit was hit: inconclusive, never a violation
+                    if self.stats.inconclusive.len() < 5 {
+                        self.stats.inconclusive.push(fail.message.chars().take(300).collect());
+                    }
+                    self.account(rec, key, || serde_json::to_value(case).unwrap());
+                    return true;
+                }
                 if !self.strict {
                     if let Some(k) = self.match_known(&fail) {
                         rec.known.push(k.id.clone());
@@ -516,6 +527,16 @@ impl WorkerCtx {
                     Ok(())
                 }
                 Err(fail) => {
+                    if fail.message.starts_with("[timeout]") {
+                        if *counting.borrow() {
+                            if me.stats.inconclusive.len() < 5 {
+                                me.stats.inconclusive.push(fail.message.chars().take(300).collect());
+                            }
+                            let key = key_of(&case);
+                            me.account(rec, key, || serde_json::to_value(&case).unwrap());
+                        }
+                        return Ok(());
+                    }
                     if !me.strict {
                         if let Some(k) = me.match_known(&fail) {
                             if *counting.borrow() {
@@ -689,6 +710,17 @@ pub fn replay_main(prop: &dyn Prop, path: &Path) -> i32 {
     let variant = v["variant"].as_str().unwrap_or("").to_string();
     let mut cx = WorkerCtx::new(prop.id(), Tier::Quick, 1, 0, 1);
     cx.strict = true;
+    // a replay that does not end is itself the reproduction of an unbounded loop: report it instead of hanging
+    {
+        let limit: u64 = std::env::var("VERIF_REPLAY_DEADLINE_S").ok().and_then(|s| s.parse().ok()).unwrap_or(600);
+        let (pid, pth) = (prop.id().to_string(), path.display().to_string());
+        std::thread::spawn(move || {
+            std::thread::sleep(std::time::Duration::from_secs(limit));
+            println!("replay {}: did not finish within {} s (unbounded loop or hang)", pth, limit);
+            println!("VIOLATION property={} replay={}", pid, pth);
+            std::process::exit(1);
+        });
+    }
     let r = guarded(|| prop.replay(&mut cx, &variant, &v["case"]));
     match r {
         Ok(()) => {
@@ -782,21 +814,108 @@ pub fn parent_main(prop: &dyn Prop, tier: Tier, seed: u64, workers_req: usize) -
         Tier::Thorough => 5 * 3600,
     });
     let deadline = Instant::now() + std::time::Duration::from_secs(budget_s);
-    for (w, out, mut child) in children {
-        let status = loop {
+    // Per-case stall detection for checks that announce every case (C15, C04): a worker whose announced case has not
+    // changed for `hang_s` seconds is stopped and the case is re-run in a fresh process under a second, longer limit;
+    // only if it does not finish there either is it reported — as a violation of "never loops without bound" for C15,
+    // as inconclusive elsewhere. Both limits are orders of magnitude above the milliseconds such a case normally takes.
+    let hang_s: u64 = std::env::var("VERIF_HANG_S").ok().and_then(|s| s.parse().ok()).unwrap_or(150);
+    let confirm_s: u64 = std::env::var("VERIF_HANG_CONFIRM_S").ok().and_then(|s| s.parse().ok()).unwrap_or(240);
+    let mut hung_failures: Vec<Failure> = vec![];
+    let mut statuses: Vec<(usize, PathBuf, std::process::ExitStatus, bool)> = vec![];
+    let mut live: Vec<(usize, PathBuf, std::process::Child)> = children;
+    while !live.is_empty() {
+        let mut still = vec![];
+        for (w, out, mut child) in live {
             match child.try_wait().expect("wait worker") {
-                Some(st) => break st,
+                Some(st) => statuses.push((w, out, st, false)),
                 None => {
                     if Instant::now() > deadline {
                         let _ = child.kill();
                         let st = child.wait().expect("wait worker");
                         inconclusive.push(format!("worker {} exceeded the wall-clock budget of {} s and was stopped (hang or overload; inconclusive)", w, budget_s));
-                        break st;
+                        statuses.push((w, out, st, true));
+                        continue;
                     }
-                    std::thread::sleep(std::time::Duration::from_millis(20));
+                    let cur = out.with_extension("current");
+                    let stalled = meta.announce
+                        && std::fs::metadata(&cur).ok().and_then(|m| m.modified().ok()).and_then(|t| t.elapsed().ok()).map(|e| e.as_secs() > hang_s).unwrap_or(false);
+                    if !hung_failures.is_empty() {
+                        // a hang has been confirmed already in this pass: just stop the others
+                        let _ = child.kill();
+                        let st = child.wait().expect("wait worker");
+                        statuses.push((w, out, st, true));
+                        continue;
+                    }
+                    if stalled {
+                        let _ = child.kill();
+                        let st = child.wait().expect("wait worker");
+                        let curv = std::fs::read(&cur).ok().and_then(|b| serde_json::from_slice::<Value>(&b).ok());
+                        if let Some(curv) = curv {
+                            // confirm in a fresh process
+                            let tmp = run_dir.join(format!("stalled-w{}.json", w));
+                            let doc = json!({"property": id, "variant": curv["variant"], "case": curv["case"], "seed": seed});
+                            let _ = std::fs::write(&tmp, serde_json::to_vec(&doc).unwrap());
+                            let mut c = std::process::Command::new(&exe).arg(id).arg("--replay").arg(&tmp).env("VERIF_REPLAY_DEADLINE_S", (confirm_s + 60).to_string()).stdout(std::process::Stdio::null()).stderr(std::process::Stdio::null()).spawn().expect("spawn confirm");
+                            let t0c = Instant::now();
+                            let verdict = loop {
+                                match c.try_wait().expect("wait confirm") {
+                                    Some(s) => break Some(s),
+                                    None if t0c.elapsed().as_secs() > confirm_s => {
+                                        let _ = c.kill();
+                                        let _ = c.wait();
+                                        break None;
+                                    }
+                                    None => std::thread::sleep(std::time::Duration::from_millis(100)),
+                                }
+                            };
+                            match verdict {
+                                None => {
+                                    let f = Failure {
+                                        variant: curv["variant"].as_str().unwrap_or("").to_string(),
+                                        case: curv["case"].clone(),
+                                        message: format!("[hang] the case did not finish within {} s in its worker and again not within {} s in a fresh process (it normally takes milliseconds): unbounded loop", hang_s, confirm_s),
+                                        signature: format!("{:016x}", blake2_64(&[id.as_bytes(), b"hang", curv.to_string().as_bytes()])),
+                                    };
+                                    if meta.dead_worker_is_violation {
+                                        hung_failures.push(f);
+                                    } else {
+                                        inconclusive.push(format!("worker {}: {}", w, f.message));
+                                    }
+                                }
+                                Some(s) if s.code() == Some(1) => hung_failures.push(Failure {
+                                    variant: curv["variant"].as_str().unwrap_or("").to_string(),
+                                    case: curv["case"].clone(),
+                                    message: "the case stalled in its worker and fails when replayed in a fresh process".to_string(),
+                                    signature: format!("{:016x}", blake2_64(&[id.as_bytes(), b"stall-fail", curv.to_string().as_bytes()])),
+                                }),
+                                Some(_) => inconclusive.push(format!("worker {} stalled for more than {} s on one case, which completed when replayed (overload?); the rest of its shard was not run", w, hang_s)),
+                            }
+                        } else {
+                            inconclusive.push(format!("worker {} stalled without an announced case", w));
+                        }
+                        statuses.push((w, out, st, true));
+                        continue;
+                    }
+                    still.push((w, out, child));
                 }
             }
-        };
+        }
+        live = still;
+        if !hung_failures.is_empty() {
+            // a confirmed hang is a violation already: stop the remaining workers instead of waiting for each of them
+            // to run into the same loop
+            for (w, out, mut child) in live.drain(..) {
+                let _ = child.kill();
+                let st = child.wait().expect("wait worker");
+                statuses.push((w, out, st, true));
+            }
+        }
+        if !live.is_empty() {
+            std::thread::sleep(std::time::Duration::from_millis(50));
+        }
+    }
+    statuses.sort_by_key(|s| s.0);
+    for (w, out, status, stopped_by_us) in statuses {
         let stats: Option<Stats> = std::fs::read(&out).ok().and_then(|b| serde_json::from_slice(&b).ok());
         match stats {
             Some(s) if status.success() => {
@@ -836,8 +955,10 @@ pub fn parent_main(prop: &dyn Prop, tier: Tier, seed: u64, workers_req: usize) -
                     .ok()
                     .and_then(|b| serde_json::from_slice::<Value>(&b).ok());
                 let desc = format!("worker {} died with {:?}", w, status);
-                let by_watchdog = Instant::now() > deadline;
-                if meta.dead_worker_is_violation && !by_watchdog {
+                let by_watchdog = stopped_by_us;
+                if by_watchdog {
+                    // already accounted for above (budget overrun or stalled case)
+                } else if meta.dead_worker_is_violation {
                     if let Some(cur) = cur {
                         failures.push(Failure {
                             variant: cur["variant"].as_str().unwrap_or("").to_string(),
@@ -855,6 +976,7 @@ pub fn parent_main(prop: &dyn Prop, tier: Tier, seed: u64, workers_req: usize) -
         }
     }
 
+    failures.extend(hung_failures);
     // 3. failures -> replay files
     let known = load_known_findings();
     let new_dir = Path::new(&verif_root()).join("replays").join(id).join("new");
